@@ -430,7 +430,7 @@ def verdict(prog, base, obs):
 
 # ====================================================================== shrinking
 
-def minimise_config(ctx, prog, cfg, base, model, G):
+def minimise_config(ctx, prog, cfg, base, model, G, obs=None):
     """Smallest argument list (canonical form -Q<l> [-Qno-all] -Q<p>...) under which the program
     still behaves differently from -Q0.  Deterministic for a given (program, flag set): level 0 before
     the level of cfg; a single pass (first in table order) before greedy deletion in table order."""
@@ -439,10 +439,13 @@ def minimise_config(ctx, prog, cfg, base, model, G):
         return list(cfg)
     flags = [n for n, k, v, vs in G["rows"] if k == "OPT_FLAG"]
     on = [n for n, v in st["tbl"] if n in flags and v != "0"]
-    tmo = int(min(T_RUN, max(6, 12 * base["t"])))
+    # a hang is probed with the full limit (a slow compile must not pass for a hang, nor the reverse)
+    tmo = T_RUN if (obs is not None and obs["cls"] == "timeout") else int(min(T_RUN, max(6, 12 * base["t"])))
 
     def differs(c):
-        return not same(behave(ctx, prog, c, timeout=tmo), base)
+        b = behave(ctx, prog, c, timeout=tmo)
+        # the same KIND of difference as the one being minimised (a program may differ in two ways)
+        return (not same(b, base)) and (obs is None or b["cls"] == obs["cls"])
 
     def form(l, ps):
         return ["-Q%d" % l] + (["-Qno-all"] if l != 0 else []) + ["-Q" + p for p in ps]
@@ -511,22 +514,28 @@ def load_records():
 
 
 OVERFLOW = []      # differences beyond the per-run budget of minimised reports: one summary violation
+CFAULT = re.compile(r"Program fault \(([^)]*)\)|\(Fatal Error\) (Storage allocation error[^.\n]*)")
 CBUG = re.compile(r"Compiler bug\.\.\.Bug: ([^\n]*)")
 SIG = re.compile(r"Compiler bug\.\.\.Bug: (fintStmt|fintEval|BCall): (\w+) .*unimplemented")
 
 
-def signature(prog, base, obs):
+def signature(prog, base, obs, mc=None):
     """Generated programs cannot be keyed by input (the seeds change with VERIF_SEED).  Where the
     failing side names the call site that gave up, the key is that site: the interpreter's
     `bug("fintStmt: %s ... unimplemented")` (fint.c) on the UNOPTIMISED unit, while the optimised
     unit prints what the oracle expects."""
     mb, mo = SIG.search(base.get("raw", "")), SIG.search(obs.get("raw", ""))
-    if mb and not mo and base["cls"] == "fail" and verdict(prog, base, obs).startswith("the -Q0 side is wrong"):
-        return "site:interp-%s-unimplemented:at -Q0" % mb.group(1)
+    if bool(mb) != bool(mo):
+        # exactly one of the two units is one the interpreter cannot run (a value used as a statement,
+        # which only dead-variable elimination removes): whatever the other side does, THIS is the difference
+        return "site:interp-%s-unimplemented:at -Q0" % (mb or mo).group(1)
     if obs["cls"] == "compile-error" and base["cls"] in ("ok", "fail"):
         m = CBUG.search(obs.get("raw", ""))
         if m:
             return "site:compiler-bug:%s" % m.group(1).rstrip(". ")[:80]
+        m = CFAULT.search(obs.get("raw", ""))
+        if m and mc is not None:
+            return "site:compiler-fault:%s:%s" % ((m.group(1) or m.group(2)).strip()[:60], cfg_str(mc))
     return None
 
 
@@ -555,16 +564,31 @@ def report_diff(rep, ctx, prog, cfg, base, obs, model, G, recs, shrink_budget, r
         return None
     if sig:
         key = sig
-        mc = minimise_config(ctx, prog, cfg, base, model, G)
+        mc = minimise_config(ctx, prog, cfg, base, model, G, obs)
         mobs = behave(ctx, prog, mc)
         if same(mobs, base) or signature(prog, base, mobs) != sig:
             mc, mobs = list(cfg), obs
     else:
-        mc = minimise_config(ctx, prog, cfg, base, model, G)
+        mc = minimise_config(ctx, prog, cfg, base, model, G, obs)
         mobs = behave(ctx, prog, mc)
-        if same(mobs, base):        # not reproducible under the minimised configuration: keep the original
+        if same(mobs, base) or mobs["cls"] != obs["cls"]:   # not reproducible under the minimised configuration
             mc, mobs = list(cfg), obs
         key = "corpus:%s:%s" % (name, cfg_str(mc)) if name else None
+        if not name:
+            # the minimal configuration may expose a call site after all
+            sig2 = signature(prog, base, mobs, mc)
+            if sig2 is None and mobs["cls"] == "timeout" and mobs.get("step") == "compile" and mc and mc[0] == "-Q9":
+                # unlimited inlining (level 9 sets the inline limit to -1)?  the same flags at level 8 compile
+                b8 = behave(ctx, prog, ["-Q8"] + mc[1:])
+                if b8["cls"] not in ("timeout", "compile-error"):
+                    sig2 = "site:compile-hang:-Q9 -Qno-all -Qinline"
+            if sig2:
+                key = sig2
+                if sig2 in reported or rep.finding_key_known(sig2):
+                    if sig2 not in reported:
+                        reported.add(sig2)
+                        rep.violation("", {}, key=sig2)
+                    return sig2
     src = prog.get("src")
     small = None
     if key is None and not name and mobs["cls"] == "timeout" and mobs.get("step") == "compile":
@@ -753,6 +777,16 @@ def differential(rep, tier, exe, G, model):
         exp = {"cls": p["expect_status"], "out": p["expect_out"]}
         if not same(b, exp):
             oracle_bad[cfg_str(c)] += 1
+    # programs whose UNOPTIMISED unit the interpreter cannot run (known defect, keyed by call site): the other
+    # configurations are compared with `-Q0 -Qdeadvar` instead, so that they are still checked against each other
+    for p in progs:
+        b0 = base_of[id(p)]
+        if b0["cls"] == "fail" and SIG.search(b0.get("raw", "")):
+            alt = behave(ctx, p, ["-Q0", "-Qdeadvar"])
+            if not SIG.search(alt.get("raw", "")) and alt["cls"] not in ("compile-error", "timeout"):
+                stats["mini_q0_interp_defect"] += 1
+                handle(p, ["-Q0", "-Qdeadvar"], b0, alt)
+                base_of[id(p)] = alt
     done = set()
     for (p, c), b in zip(jobs, res):
         base = base_of[id(p)]
@@ -840,6 +874,7 @@ def differential(rep, tier, exe, G, model):
                                     "corpus_candidates": stats["corpus_candidates"],
                                     "corpus_deterministic_at_Q0": stats["corpus_deterministic"],
                                     "config_kinds": dict(cfg_kinds), "configs_in_pool": {k: len(v) for k, v in CF.items() if isinstance(v, list)},
+                                    "generated_programs_compared_with_Q0_deadvar": stats["mini_q0_interp_defect"],
                                     "recorded_failures_run": stats["recorded_failures_run"],
                                     "recorded_failures_reproduced": stats["recorded_failures_reproduced"]},
                 differences=stats["differences"], keys_seen=dict(seen_keys), flaky=stats["flaky"],
